@@ -675,6 +675,14 @@ impl<'a> IrCodegen<'a> {
                         }
                     }
                     let ir = lowering.lower_program(ast)?;
+                    // The types this module imports from its sibling modules (same tables as for the entry file).
+                    let mut sibling_irs = Vec::new();
+                    for (other, other_ast) in &self.dependency_modules {
+                        if other != name {
+                            let mut sibling_lowering = AstLowering::new();
+                            sibling_irs.push(sibling_lowering.lower_program(other_ast)?);
+                        }
+                    }
                     let use_emit_service = env::var("INCAN_EMIT_SERVICE").ok().as_deref() == Some("1");
                     let module_code = if use_emit_service {
                         let mut svc = EmitService::new_from_program(&ir);
@@ -683,6 +691,9 @@ impl<'a> IrCodegen<'a> {
                     } else {
                         let mut emitter = IrEmitter::new(&ir.function_registry);
                         emitter.set_internal_module_roots(internal_roots.clone());
+                        for sibling_ir in &sibling_irs {
+                            emitter.register_imported_types(sibling_ir);
+                        }
                         emitter.emit_program(&ir)?
                     };
                     modules.insert(path.clone(), module_code);
